@@ -51,7 +51,8 @@ class C21(Prop):
     budget = {'quick': 2500, 'thorough': 40000}
     search_budget = {'quick': 3000, 'thorough': 30000}
     rule = ('case kinds: classify (one exception object, possibly chained through __cause__/__context__, through the three real '
-            'classifiers), run (a scripted coroutine function raising real exception objects then returning, driven by the real '
+            'classifiers), run (a scripted coroutine function raising real exception objects — HTTP errors with response headers: '
+            'Retry-After numeric / date / absent / headers=None — then returning, driven by the real '
             'retry_transient_errors / _with_debug_string / _with_delayed_warnings under the virtual-clock loop, random.randrange patched '
             'to draw % n, asyncio.sleep recorded), delay (delay_ms_for_try with arbitrary tries/base/max/draw). Compared with the model: '
             'classifier triple; outcome, number of calls, list of requested sleeps in ms; the delay. non-trivial = a chained or '
@@ -77,15 +78,29 @@ class C21(Prop):
         self.ri = aiohttp.RequestInfo(URL('http://host/'), 'GET', {}, URL('http://host/'))
         self.ck = ConnectionKey('host', 80, False, True, None, None, None)
 
+    @staticmethod
+    def _headers(ra):
+        """response headers of a failed request: `ra` = 'none' (headers=None) | 'absent' | 'date' | a number of seconds"""
+        if ra == 'none':
+            return None
+        from multidict import CIMultiDict, CIMultiDictProxy
+        h = CIMultiDict({'Content-Type': 'application/json'})
+        if ra == 'date':
+            h['Retry-After'] = 'Wed, 21 Oct 2026 07:28:00 GMT'
+        elif ra != 'absent':
+            h['Retry-After'] = str(ra)
+        return CIMultiDictProxy(h)
+
     def build(self, sp):
         """real exception object from its JSON spec"""
         if sp is None:
             return None
         a, c = self.aiohttp, sp['c']
         if c == 'aioCRE':
-            e = a.ClientResponseError(self.ri, (), status=sp['status'], message='msg')
+            e = a.ClientResponseError(self.ri, (), status=sp['status'], message='msg', headers=self._headers(sp.get('ra', 'absent')))
         elif c == 'httpxCRE':
-            e = self.hx.ClientResponseError(self.ri, (), body=BODIES[sp['body']], status=sp['status'], message='msg')
+            e = self.hx.ClientResponseError(self.ri, (), body=BODIES[sp['body']], status=sp['status'], message='msg',
+                                            headers=self._headers(sp.get('ra', 'absent')))
         elif c == 'gcp':
             codes = {'quota': ['FOO', 'QUOTA_EXCEEDED'], 'other': ['FOO'], 'none': None}[sp['codes']]
             e = self.gcp.GCPOperationError(400, 'msg', codes, None, {})
@@ -120,6 +135,12 @@ class C21(Prop):
             e.__context__ = self.build(sp['ctx'])
         return e
 
+    @staticmethod
+    def _retry_after(e):
+        h = getattr(e, 'headers', None)
+        v = str((h or {}).get('Retry-After', ''))
+        return int(v) if v.isdigit() else -1
+
     def describe(self, e):
         """the model's view of a real exception object (atomic isinstance / attribute facts only; no classification logic)"""
         if e is None:
@@ -146,7 +167,8 @@ class C21(Prop):
              b(isinstance(e, socket.gaierror)),
              b(isinstance(e, self.U.TransientError)),
              b(isinstance(e, ConnectionResetError)),
-             b(isinstance(e, ConnectionRefusedError))]
+             b(isinstance(e, ConnectionRefusedError)),
+             self._retry_after(e)]
         os_ = self.describe(e.os_error) if isinstance(e, a.ClientConnectorError) else 'N'
         return '[' + ','.join(str(int(x)) for x in f) + '|' + os_ + '|' + self.describe(e.__cause__) + ']'
 
@@ -212,6 +234,10 @@ class C21(Prop):
             out.append({'c': 'aioCRE', 'status': s})
             for body in BODIES:
                 out.append({'c': 'httpxCRE', 'status': s, 'body': body})
+        for s_ in (429, 503, 403, 400):
+            for ra in ('none', 'date', 1, 45, 300, 86400):
+                out.append({'c': 'aioCRE', 'status': s_, 'ra': ra})
+                out.append({'c': 'httpxCRE', 'status': s_, 'body': 'rl' if s_ == 403 else 'none', 'ra': ra})
         out += [{'c': 'gcp', 'codes': k} for k in ('quota', 'other', 'none')]
         out += [{'c': k} for k in ('srvTimeout', 'srvDisc', 'timeout', 'sockTimeout', 'transient', 'value', 'runtime', 'key', 'cancelled')]
         out += [{'c': 'payload', 'msg': m} for m in ('incomplete', 'other')]
